@@ -20,15 +20,19 @@ template <typename InputIt, typename OutputIt, typename Predicate>
 constexpr auto unique_copy(InputIt first, InputIt last, OutputIt destination, Predicate pred) -> OutputIt
 {
     if (first != last) {
-        *destination = *first;
+        // keep a copy of the last element written: the destination may be write-only
+        // and the input single-pass
+        auto value   = *first;
+        *destination = value;
+        ++destination;
 
         while (++first != last) {
-            if (not pred(*destination, *first)) {
-                *++destination = *first;
+            if (not pred(value, *first)) {
+                value        = *first;
+                *destination = value;
+                ++destination;
             }
         }
-
-        ++destination;
     }
 
     return destination;
